@@ -342,8 +342,16 @@ pub fn run_mut_program(p: &Value, out: &mut String) {
                             }
                         }
                         "ptr" => {
-                            let p = c.as_mut_ptr();
-                            unsafe { std::ptr::copy_nonoverlapping(d.as_ptr(), p, k) };
+                            if k % 2 == 0 {
+                                let p = c.as_mut_ptr();
+                                unsafe { std::ptr::copy_nonoverlapping(d.as_ptr(), p, k) };
+                            } else {
+                                // the MaybeUninit view of the chunk
+                                let u = unsafe { c.as_uninit_slice_mut() };
+                                for j in 0..k {
+                                    u[j].write(d[j]);
+                                }
+                            }
                         }
                         "oob" => {
                             // indices one past the chunk must panic and write nothing
